@@ -400,21 +400,23 @@ def readStreamLoop : Nat → State → Sid → Nat → State × R (Option (List 
             let s := onReset s rid.mirror
             if id = rid.mirror then (s, .ready (.ok none)) else readStreamLoop fuel s id k
 
+/-- `poll_read_stream`, "Try to read from the buffer first" -/
+def readFromBuf (s : State) (id : Sid) : Option (State × List Nat) :=
+  match s.get id with
+  | some x =>
+    (match x.buf with
+     | d :: rest =>
+       let s := if s.blocking = some id then { s with blocking := none } else s
+       some (s.put { x with buf := rest, dl := x.dl ++ [d] }, d)
+     | [] => none)
+  | none => none
+
 /-- `poll_read_stream` -/
 def pollReadStream (s : State) (id : Sid) : State × R (Option (List Nat)) :=
   match guardOpen s with
   | some e => (s, .ready (.error e))
   | none =>
-    let fromBuf : Option (State × List Nat) :=
-      match s.get id with
-      | some x =>
-        (match x.buf with
-         | d :: rest =>
-           let s := if s.blocking = some id then { s with blocking := none } else s
-           some (s.put { x with buf := rest, dl := x.dl ++ [d] }, d)
-         | [] => none)
-      | none => none
-    match fromBuf with
+    match readFromBuf s id with
     | some (s, d) => (s, .ready (.ok (some d)))
     | none => readStreamLoop (s.inq.length + 1) s id 0
 
